@@ -54,6 +54,7 @@ def LInv(p):
         ("LI1:previous-is-0-or-an-earlier-stub", z3.ForAll([b], z3.Implies(w.stub(b), z3.Or(pv == 0, z3.And(w.stub(pv), pv < b))))),
         ("LI1:target-is-a-data-block", z3.ForAll([b], z3.Implies(w.stub(b), tg >= 128))),
         ("LI2:count-map-unfolds", z3.ForAll([b], z3.Implies(w.stub(b), w.cnt(b) == inc))),
+        ("LI3:counts-are-nonnegative", z3.ForAll([b, z3.Int("t")], z3.Implies(w.stub(b), z3.Select(w.cnt(b), z3.Int("t")) >= 0))),
     ]
     cs += [("L-codec-range/%d" % i, c) for i, c in enumerate(Wd.links_in_range(w))]
     return cs
@@ -461,3 +462,70 @@ class MapItems(object):
 
 
 GROUP = "link"
+
+
+# ---------------------------------------------------------------------------- deduped walk
+class Deduped(Contract):
+    """deduped_link_nodes_iter(block): requires a stub address; every yielded target
+    occurs on the chain (count >= 1).  (Each once, and all of them: bounded.)"""
+
+    qual = "LinkStore.deduped_link_nodes_iter"
+
+    def setups(self, ex):
+        p, w, ts, lstore, store = base()
+        b = fresh("block", INT)
+        p.assume(w.stub(b))
+        p.w["__b"] = b
+        p.w["out.n"] = z3.IntVal(0)
+        yield p, store, [b], {}, "stub"
+
+    def on_yield(self, ex, p, v, ln, tag):
+        w = LW(p)
+        t = ex.unwrap(v, p, "yielded target", ln)
+        ex.oblige(p, "yielded-target-occurs-on-the-chain", z3.Select(w.cnt(p.w["__b"]), to_z3(t)) >= 1, ln)
+        p.w["out.n"] = p.w["out.n"] + 1
+        p.mut += 1
+        return [(p, "normal", None)]
+
+    def check(self, ex, p0, res, tag):
+        for p1, kind, val in res:
+            if kind == "raise":
+                ex.oblige(p1, "raises-nothing-on-a-stub(%s)" % val[0], False, val[1])
+                continue
+            N.world_unchanged(ex, p1, p0, keys=[k for k in p0.w if k.startswith(("T.", "L.", "G."))])
+
+
+def deduped_loop_inv(ex, p):
+    w = LW(p)
+    b = p.w["__b"]
+    n = p.env["node"]
+    nb = N_blk(p, n)
+    d = node_data(p, n)
+    t = z3.Int("t")
+    return [
+        ("node-is-a-stub-of-the-chain", w.stub(nb)),
+        ("node-fresh", z3.And(to_z3(d[0]) == w.l("target", nb), to_z3(d[1]) == w.l("prev", nb), to_z3(ex.truth(p.obj(n).f["exists"], p)))),
+        ("counts-from-here<=counts-of-the-whole-chain", z3.ForAll([t], z3.Select(w.cnt(nb), t) <= z3.Select(w.cnt(b), t))),
+    ]
+
+
+def deduped_havoc(ex, p):
+    store = p.obj(p.env["node"]).f["storage"]
+    p.env["node"] = link_node_at(p, store, fresh("cur", INT))
+    so = p.obj(p.env["already_seen"])
+    so.f["dom"] = fresh("seen_dom", z3.ArraySort(INT, BOOL))
+    so.f["val"] = fresh("seen_val", z3.ArraySort(INT, INT))
+    so.f["n"] = fresh("seen_n", INT)
+    if "target" in p.env:
+        p.env["target"] = Opt(fresh("tg_none", BOOL), fresh("tg", INT))
+    if "len_before" in p.env:
+        p.env["len_before"] = fresh("len_before", INT)
+
+
+_install_l0 = install
+
+
+def install(lib):
+    cs = _install_l0(lib)
+    lib.loop_spec("LinkStore.deduped_link_nodes_iter::while#0", LoopSpec(deduped_loop_inv, havoc=deduped_havoc))
+    return cs + [Deduped()]
